@@ -238,3 +238,22 @@ Proof.
   intros Hv Hok Hg Hc. unfold getitem. apply getitem_after_norm; auto.
   apply norm_index_full; assumption.
 Qed.
+
+(* index lists: the hull of the first and last selected cell is kept, so for a
+   non-contiguous list the cells of the result are not the selected cells *)
+Lemma getitem_list_cells_refuted :
+  exists (p q : list Raxis), Forall valid p /\ getitem_list p [0%Z; 2%Z] = Ok q /\
+    nthR 1 (bdry_vec (hd (mkAxis 0 0 []) q)) <> nthR 1 (bdry_vec (hd (mkAxis 0 0 []) p)).
+Proof.
+  exists [mkAxis 0 3 [1/2; 3/2; 5/2]], [mkAxis 0 3 [1/2; 5/2]].
+  assert (Hv : valid (mkAxis 0 3 [1/2; 3/2; 5/2])) by (constructor; cbn; intuition (lra || lia)).
+  assert (Hv' : valid (mkAxis 0 3 [1/2; 5/2])) by (constructor; cbn; intuition (lra || lia)).
+  split; [constructor; [exact Hv|constructor]|]. split.
+  - unfold getitem_list. change (fancy_idx (zlen (a_cs (mkAxis 0 3 [1/2; 3/2; 5/2]))) [0%Z; 2%Z]) with (Ok [0%Z; 2%Z]).
+    cbn [bind hd last]. change (Z.to_nat 0) with 0%nat. change (Z.to_nat 2) with 2%nat.
+    unfold nth0, bdry_vec, take_idx. cbn [a_lo a_hi a_cs mids app nth flat_map nth_error].
+    change (Z.to_nat 0) with 0%nat. change (Z.to_nat 2) with 2%nat. cbn [nth_error app]. numR.
+    replace (Rltb 3 0) with false by (symmetry; apply (ltb_false 3 0); lra).
+    apply mk_part_valid. constructor; [exact Hv'|constructor].
+  - cbn. numR'. lra.
+Qed.
